@@ -9,6 +9,8 @@ from checks import ustr_common as U
 CTOR_ALPHA = [0, 47, 97, 255]
 PATH_ALPHA = [47, 97, 255]
 PATH_STRING_OPS = ["path_join", "path_join_fmt", "parent_path", "path_file_name"]
+# judged exactly (stored bytes = operand + NUL), not only for termination
+EXACT_PAIR_OPS = ["string_from_unixstr"]
 
 
 def run(tier):
@@ -16,7 +18,7 @@ def run(tier):
     bindir = core.cargo_build(bins=["ustr"])
     nontrivial = set()
     # 1. constructors/conversions over every byte string up to the bound (alphabet with NUL, '/', ASCII, 0xff)
-    cl = 4 if tier == "quick" else 5
+    cl = 4 if tier == "quick" else 6
     cvecs = U.gen_vectors(chk, "ctor", CTOR_ALPHA, cl)
     results, crashes = U.run_driver(chk, bindir, "ctor", cvecs, "c10")
     for i, v in enumerate(cvecs):
@@ -46,6 +48,14 @@ def run(tier):
         for op in PATH_STRING_OPS:
             if op in r:
                 recs.append({"op": op, "a": v["a"], "b": v["b"], "out": r[op], "view": "term"})
+        for op in EXACT_PAIR_OPS:
+            if op in r and not v["a"]:
+                recs.append({"op": op, "a": [], "b": v["b"], "out": r[op], "view": "raw"})
+    # literals evaluated at compile time (unix_lit!, UnixStr::EMPTY)
+    import json as _json
+    for l in core.run_cmd([os.path.join(bindir, "ustr"), "lits"]).stdout.splitlines():
+        x = _json.loads(l)
+        recs.append({"op": x["op"], "a": [], "b": x["b"], "out": x["out"], "view": "raw"})
     # 3. random long operands (incl. formatted text with interior / trailing NULs for the fmt variants)
     rng = random.Random(chk.seed)
     n_rand = 300 if tier == "quick" else 5000
